@@ -31,10 +31,12 @@ SQFS_COMPRESSOR compressor_get_default(void)
 
 		ret = sqfs_compressor_create(&cfg, &temp);
 
-		if (ret == 0) {
+		if (ret == 0)
 			sqfs_drop(temp);
+
+		/* any other failure says nothing about availability */
+		if (ret != SQFS_ERROR_UNSUPPORTED)
 			return cmp_ids[i];
-		}
 	}
 
 #ifdef WITH_LZO
